@@ -1,4 +1,6 @@
+pub mod families;
 pub mod model;
+pub mod nf;
 pub mod oracles;
 pub mod report;
 pub mod subject;
